@@ -22,6 +22,8 @@ type Scenario struct {
 	// whole scenario, in the order they reach the driver.Conn) is altered.
 	Faults []Fault `json:"faults,omitempty"`
 	Note   string  `json:"note,omitempty"`
+	// Store is a backend-level operation sequence (C14); Steps is empty then.
+	Store *StoreCase `json:"store,omitempty"`
 	// Twin is a second scenario that must behave identically (metamorphic checks, C12).
 	Twin *Scenario `json:"twin,omitempty"`
 }
@@ -112,3 +114,22 @@ func Load(path string) (*Scenario, error) {
 }
 
 func H(k, v string) [2]string { return [2]string{k, v} }
+
+// StoreCase is a generated operation sequence against one backend configuration.
+type StoreCase struct {
+	Backend string        `json:"backend"` // mem | fs | fsenc
+	Ops     []StoreOpSpec `json:"ops"`
+}
+
+// StoreOpSpec is one backend operation. Keys are raw bytes (base64 in JSON).
+type StoreOpSpec struct {
+	Op      string `json:"op"` // set | get | delete | keys | reopen | set-scribble | get-scribble | api-get | api-delete | api-list
+	Key     []byte `json:"key,omitempty"`
+	ValLen  int    `json:"val_len,omitempty"`
+	ValSeed uint64 `json:"val_seed,omitempty"`
+}
+
+// ExpandValue deterministically expands a value spec.
+func ExpandValue(n int, seed uint64) []byte {
+	return expandBody(Body{Len: n, Class: "rand", Seed: seed}, 0, true)
+}
